@@ -63,6 +63,7 @@ type Pattern struct {
 	revision      revision
 	procFun       map[termType]algo.Algo
 	cache         *ChunkCache
+	cacheGen      int
 	denylist      map[int32]struct{}
 }
 
@@ -148,6 +149,7 @@ func BuildPattern(cache *ChunkCache, patternCache map[string]*Pattern, fuzzy boo
 		revision:      revision,
 		delimiter:     delimiter,
 		cache:         cache,
+		cacheGen:      cache.Generation(),
 		denylist:      denylist,
 		procFun:       make(map[termType]algo.Algo)}
 
@@ -296,7 +298,7 @@ func (p *Pattern) Match(chunk *Chunk, slab *util.Slab) []Result {
 	matches := p.matchChunk(chunk, space, slab)
 
 	if p.cacheable {
-		p.cache.Add(chunk, cacheKey, matches)
+		p.cache.addIfCurrent(p.cacheGen, chunk, cacheKey, matches)
 	}
 	return matches
 }
